@@ -1,6 +1,8 @@
 (* C07/Model.v -- executable model of the two connection writers of conn.go and of how exec uses them.
 
    Anchors (pinned tree):
+     (line numbers of the pinned tree; the model follows the code as repaired by the fixes of F-C07-1 / F-C07-2:
+      both writers re-check ctx.Err() after the select and remember a torn Write in tornErr)
      conn.go:835-857   deadlineContextWriter.writeContext  (select ctx/quit/semaphore; SetWriteDeadline; one Write)
      conn.go:898-920   writeCoalescer.writeContext          (select ctx/quit/send on writeCh; wait for the result)
      conn.go:933-970   writeCoalescer.writeFlusherImpl      (enqueue / quit / timer)
@@ -15,7 +17,7 @@
    Write call, a Write call returning, the coalescing timer firing).  The environment is not
    constrained by [step]: a Write may accept any number of bytes and return any error, in particular
    it may break the io.Writer contract (short count with a nil error); such facts are recorded in
-   ghost flags ([broken], [torn], [late]) that theorems mention as hypotheses.
+   ghost flags ([broken], [torn]) that theorems mention as hypotheses.
 
    Counts are [nat] (they are lengths of byte strings).  Bytes on the wire carry, as ghost
    information, the identity of the request whose Write call handed them to the connection. *)
@@ -30,6 +32,7 @@ Inductive err :=
 | EDeadlineExceeded    (* context.DeadlineExceeded *)
 | EConnClosed          (* ErrConnectionClosed *)
 | EEOF                 (* io.EOF *)
+| EShortWrite          (* io.ErrShortWrite *)
 | EOther (code : Z).   (* whatever the connection returned *)
 
 Definition res := (nat * option err)%type.      (* what writeContext returns: (n, err) *)
@@ -37,6 +40,17 @@ Definition res := (nat * option err)%type.      (* what writeContext returns: (n
 (* conn.go:1095  errors.Is(err, context.Canceled) || errors.Is(err, context.DeadlineExceeded) *)
 Definition is_ctx_err (e : err) : bool :=
   match e with ECanceled | EDeadlineExceeded => true | _ => false end.
+
+Definition err_eqb (a b : err) : bool :=
+  match a, b with
+  | ECanceled, ECanceled | EDeadlineExceeded, EDeadlineExceeded | EConnClosed, EConnClosed | EEOF, EEOF
+  | EShortWrite, EShortWrite => true
+  | EOther x, EOther y => Z.eqb x y
+  | _, _ => false
+  end.
+
+(* the error both writers remember after a Write that left part of a frame on the connection *)
+Definition tear_err (e : option err) : err := match e with Some x => x | None => EShortWrite end.
 
 (* conn.go:1090-1113: after writeContext returned r, does exec call closeWithError? *)
 Definition must_close (r : res) : bool :=
@@ -47,6 +61,14 @@ Definition must_close (r : res) : bool :=
 
 (* ---------------------------------------------------------------------------------------------- *)
 (* the attribution loop of flush, conn.go:992-1008.  [n] is the count returned by WriteTo. *)
+
+(* does the attribution loop meet a buffer of which a proper, non-empty part was written (the [if n > 0] in its
+   else branch)?  Then flush returns a non-nil tornErr. *)
+Fixpoint attribute_torn (lens : list nat) (n : nat) : bool :=
+  match lens with
+  | [] => false
+  | l :: rest => if l <=? n then attribute_torn rest (n - l) else (0 <? n) || attribute_torn rest 0
+  end.
 
 Fixpoint attribute (lens : list nat) (n : nat) (e : option err) : list res :=
   match lens with
@@ -81,6 +103,17 @@ Definition set_pc (th : threads) (t : nat) (p : pc) : threads := upd th t (frame
 Definition tag (t : nat) (bs : list Z) : list (nat * Z) := map (pair t) bs.
 
 Definition memb (t : nat) (l : list nat) : bool := existsb (Nat.eqb t) l.
+
+(* contexts that have ended, with their ctx.Err(); the first entry of a request counts *)
+Fixpoint ctx_err (cx : list (nat * err)) (t : nat) : option err :=
+  match cx with
+  | [] => None
+  | (t', e) :: cx' => if t' =? t then Some e else ctx_err cx' t
+  end.
+Definition ctx_end (cx : list (nat * err)) (t : nat) (e : err) : list (nat * err) :=
+  match ctx_err cx t with Some _ => cx | None => (t, e) :: cx end.
+Definition opt_err_eqb (a b : option err) : bool :=
+  match a, b with Some x, Some y => err_eqb x y | None, None => true | _, _ => false end.
 
 (* ghost history of Write calls: (request, bytes accepted by that call so far) *)
 Definition bump (t k : nat) (h : list (nat * nat)) : list (nat * nat) :=
@@ -119,7 +152,7 @@ Fixpoint lts_run {S L : Type} (step : S -> L -> option S) (s : S) (ls : list L) 
 
 Record dstate := mkD {
   d_thr : threads;
-  d_ctx : list nat;                (* requests whose context has ended *)
+  d_ctx : list (nat * err);        (* requests whose context has ended, with ctx.Err() *)
   d_sem : option nat;              (* who holds the semaphore *)
   d_wire : list (nat * Z);         (* bytes the connection has accepted, in order *)
   d_quit : bool;                   (* deadlineContextWriter.quit closed (nobody in the driver closes it) *)
@@ -128,18 +161,20 @@ Record dstate := mkD {
   d_connclosed : bool;             (* c.conn.Close() called *)
   d_hist : list (nat * nat);       (* ghost: Write calls in order *)
   d_torn : bool;                   (* ghost: some Write call returned having accepted part of its buffer *)
-  d_late : bool;                   (* ghost: a Write call began after that *)
+  d_failed : option err;           (* deadlineContextWriter.tornErr *)
   d_broken : bool                  (* ghost: a Write call returned n < len(p) with a nil error *)
 }.
 
-Definition d_init : dstate := mkD [] [] None [] false false false false [] false false false.
+Definition d_init : dstate := mkD [] [] None [] false false false false [] false None false.
 
 Inductive dlabel :=
 | DCall (f : list Z)             (* exec: addCall succeeded, frame f built, writeContext called *)
-| DCtxDone (t : nat)             (* environment: the context of request t ends *)
+| DCtxDone (t : nat) (e : err)   (* environment: the context of request t ends; ctx.Err() = e from now on *)
 | DCtx (t : nat) (e : err)       (* select: case <-ctx.Done(): return 0, ctx.Err() *)
 | DQuitSel (t : nat)             (* select: case <-c.quit: return 0, ErrConnectionClosed *)
-| DAcquire (t : nat)             (* select: case c.semaphore <- struct{}{} *)
+| DAcquire (t : nat)             (* select: case c.semaphore <- struct{}{}, then the checks of ctx.Err() and tornErr
+                                    (one step: while t holds the semaphore nobody else can change tornErr, and a context
+                                    ending between the acquisition and the check is the same as one ending just before) *)
 | DStartWrite (t : nat) (dl : option err)
                                  (* SetWriteDeadline returned dl (None also when timeout = 0); on success Write(p) is called *)
 | DChunk (t k : nat)             (* environment: the connection accepts k more bytes of t's Write *)
@@ -156,11 +191,11 @@ Definition dstep (has_to : bool) (s : dstate) (l : dlabel) : option dstate :=
   | DCall f =>
       if clg then None                                   (* addCall: ErrConnectionClosed *)
       else Some (mkD (th ++ [(f, PSelect)]) cx sem w q clg can cc h tn lt br)
-  | DCtxDone t => Some (mkD th (t :: cx) sem w q clg can cc h tn lt br)
+  | DCtxDone t e => if is_ctx_err e then Some (mkD th (ctx_end cx t e) sem w q clg can cc h tn lt br) else None
   | DCtx t e =>
       match pc_of th t with
       | Some PSelect =>
-          if is_ctx_err e && memb t cx
+          if opt_err_eqb (ctx_err cx t) (Some e)
           then Some (mkD (set_pc th t (PReturned (0, Some e))) cx sem w q clg can cc h tn lt br)
           else None
       | _ => None
@@ -174,7 +209,12 @@ Definition dstep (has_to : bool) (s : dstate) (l : dlabel) : option dstate :=
       end
   | DAcquire t =>
       match pc_of th t, sem with
-      | Some PSelect, None => Some (mkD (set_pc th t PHold) cx (Some t) w q clg can cc h tn lt br)
+      | Some PSelect, None =>
+          match ctx_err cx t, lt with
+          | Some e, _ => Some (mkD (set_pc th t (PReturned (0, Some e))) cx None w q clg can cc h tn lt br)   (* ctx.Err() != nil *)
+          | None, Some e => Some (mkD (set_pc th t (PReturned (0, Some e))) cx None w q clg can cc h tn lt br) (* tornErr != nil *)
+          | None, None => Some (mkD (set_pc th t PHold) cx (Some t) w q clg can cc h tn lt br)
+          end
       | _, _ => None
       end
   | DStartWrite t dl =>
@@ -186,7 +226,7 @@ Definition dstep (has_to : bool) (s : dstate) (l : dlabel) : option dstate :=
               then Some (mkD (set_pc th t (PReturned (0, Some e))) cx None w q clg can cc h tn lt br)
               else None
           | None =>
-              Some (mkD (set_pc th t (PWriting 0)) cx sem w q clg can cc (h ++ [(t, 0)]) tn (lt || tn) br)
+              Some (mkD (set_pc th t (PWriting 0)) cx sem w q clg can cc (h ++ [(t, 0)]) tn lt br)
           end
       | _ => None
       end
@@ -206,7 +246,9 @@ Definition dstep (has_to : bool) (s : dstate) (l : dlabel) : option dstate :=
       | Some (PWriting sent) =>
           let len := length (frame_of th t) in
           Some (mkD (set_pc th t (PReturned (sent, e))) cx None w q clg can cc h
-                    (tn || torn_now sent len) lt (br || broken_now sent len e))
+                    (tn || torn_now sent len)
+                    (if torn_now sent len then Some (tear_err e) else lt)       (* n > 0 && n < len(p): tornErr = err or ErrShortWrite *)
+                    (br || broken_now sent len e))
       | _ => None
       end
   | DAfter t =>
@@ -243,7 +285,7 @@ Inductive fpc :=
 
 Record cstate := mkC {
   c_thr : threads;
-  c_ctx : list nat;
+  c_ctx : list (nat * err);
   c_queue : list nat;                (* buffers / resultChans, in order *)
   c_running : bool;                  (* timer armed *)
   c_fpc : fpc;
@@ -253,15 +295,15 @@ Record cstate := mkC {
   c_connclosed : bool;
   c_hist : list (nat * nat);
   c_torn : bool;
-  c_late : bool;
+  c_failed : option err;             (* the flusher's tornErr *)
   c_broken : bool
 }.
 
-Definition c_init : cstate := mkC [] [] [] false FLoop [] false false false [] false false false.
+Definition c_init : cstate := mkC [] [] [] false FLoop [] false false false [] false None false.
 
 Inductive clabel :=
 | CCall (f : list Z)
-| CCtxDone (t : nat)
+| CCtxDone (t : nat) (e : err)
 | CCtx (t : nat) (e : err)           (* select: <-ctx.Done() *)
 | CQuitSel (t : nat)                 (* select: <-w.quit: return 0, io.EOF *)
 | CEnqueue (t : nat)                 (* rendezvous on writeCh between writer t and the flusher *)
@@ -291,11 +333,11 @@ Definition cstep (has_to : bool) (s : cstate) (l : clabel) : option cstate :=
   | CCall f =>
       if clg then None
       else Some (mkC (th ++ [(f, PSelect)]) cx qu rn fp w clg can cc h tn lt br)
-  | CCtxDone t => Some (mkC th (t :: cx) qu rn fp w clg can cc h tn lt br)
+  | CCtxDone t e => if is_ctx_err e then Some (mkC th (ctx_end cx t e) qu rn fp w clg can cc h tn lt br) else None
   | CCtx t e =>
       match pc_of th t with
       | Some PSelect =>
-          if is_ctx_err e && memb t cx
+          if opt_err_eqb (ctx_err cx t) (Some e)
           then Some (mkC (set_pc th t (PReturned (0, Some e))) cx qu rn fp w clg can cc h tn lt br)
           else None
       | _ => None
@@ -310,8 +352,13 @@ Definition cstep (has_to : bool) (s : cstate) (l : clabel) : option cstate :=
   | CEnqueue t =>
       match pc_of th t, fp with
       | Some PSelect, FLoop =>
-          (* buffers = append(buffers, req.data); if !running { resetTimer(); running = true } *)
-          Some (mkC (set_pc th t PQueued) cx (qu ++ [t]) true fp w clg can cc h tn lt br)
+          match ctx_err cx t, lt with
+          | Some e, _ => Some (mkC (set_pc th t (PReturned (0, Some e))) cx qu rn fp w clg can cc h tn lt br)   (* req.ctx.Err() != nil *)
+          | None, Some e => Some (mkC (set_pc th t (PReturned (0, Some e))) cx qu rn fp w clg can cc h tn lt br) (* tornErr != nil *)
+          | None, None =>
+              (* buffers = append(buffers, req.data); if !running { resetTimer(); running = true } *)
+              Some (mkC (set_pc th t PQueued) cx (qu ++ [t]) true fp w clg can cc h tn lt br)
+          end
       | _, _ => None
       end
   | FTimer =>
@@ -331,7 +378,7 @@ Definition cstep (has_to : bool) (s : cstate) (l : clabel) : option cstate :=
               match batch with
               | [] => Some (mkC th cx qu rn FLoop w clg can cc h tn lt br)
               | t :: rest =>
-                  Some (mkC th cx qu rn (FWriting [] t rest 0 0) w clg can cc (h ++ [(t, 0)]) tn (lt || tn) br)
+                  Some (mkC th cx qu rn (FWriting [] t rest 0 0) w clg can cc (h ++ [(t, 0)]) tn lt br)
               end
           end
       | _ => None
@@ -357,9 +404,10 @@ Definition cstep (has_to : bool) (s : cstate) (l : clabel) : option cstate :=
           match e, rest with
           | None, t' :: rest' =>                       (* WriteTo goes on with the next buffer *)
               Some (mkC th cx qu rn (FWriting (dn ++ [cur]) t' rest' 0 n') w clg can cc
-                        (h ++ [(t', 0)]) tn' (lt || tn') br')
+                        (h ++ [(t', 0)]) tn' lt br')
           | _, _ =>                                    (* WriteTo returns (n', e) *)
-              Some (mkC (finish_flush th (dn ++ cur :: rest) n' e) cx qu rn FLoop w clg can cc h tn' lt br')
+              let lt' := if attribute_torn (lens_of th (dn ++ cur :: rest)) n' then Some (tear_err e) else lt in
+              Some (mkC (finish_flush th (dn ++ cur :: rest) n' e) cx qu rn FLoop w clg can cc h tn' lt' br')
           end
       | _ => None
       end
